@@ -1163,6 +1163,8 @@ class Standard(Output):
 
     def _plot_rank_core(self, data):
         F = data.num_inputs
+        if F < 2:
+            verif.util.error("'-type rank' requires at least two input files")
 
         # Choose which axes to make plots for
         if self.axis == verif.axis.All():
